@@ -198,6 +198,8 @@ def main(argv):
             violations.append(("kani", kv, kv["oid"]))
         undecided += kund
         for kr in krows:
+            if kr["kind"].startswith("bounded"):
+                continue  # bounded stand-ins are reported under coverage.bounded, never counted as proved
             total_obl += kr.get("checks", 1)
             if kr["status"] == "SUCCESS":
                 discharged += kr.get("checks", 1)
@@ -243,7 +245,8 @@ def main(argv):
             "trusted_base": sorted(trusted) + pc.get("trusted_extra", []),
             "units": units,
             "functions_under_contract": fn_rows,
-            "kani_harnesses": kani_rows,
+            "kani_harnesses": [k for k in kani_rows if not k["kind"].startswith("bounded")],
+            "bounded": [k for k in kani_rows if k["kind"].startswith("bounded")],
             "normalisations_applied": applied_rules,
             "panic_sites_in_scope": len(panic_sites),
             "canary_failed_as_expected": all(results[u][0] == "ok" and results[u][1].canary_failed for u in units),
